@@ -555,20 +555,22 @@ class AbiAnalysis:
                 if sus:
                     pi = self.k.insts.get(pa, {})
                     self.rep(a, "carry-from-address-arithmetic:%s" % sus,
-                             "the carry consumed here may come from `%s` at +0x%x, which adds a constant to %s - a register this kernel uses to "
-                             "address memory (a loop index or pointer), not a saved-carry mask: the limb carry chain is broken (inc / dec / lea "
-                             "leave CF alone)" % (pi.get("t", "").replace("\t", " "), pa - self.addr, sus))
+                             "the carry consumed here may come from `%s` at +0x%x, which adds a constant to %s - a loop counter, index or pointer, "
+                             "not a saved carry (sbb r,r mask or setc byte): the limb carry chain is broken (inc / dec / lea leave CF alone)" % (pi.get("t", "").replace("\t", " "), pa - self.addr, sus))
         for g in wr:
             st["fl"][g] = True
         if "C" in wr:
             sus = None
             if re.match(r"^(add|sub)[bwlq]?$", mn) and ins.get("imm") is not None and ins["defs"] and not mems:
                 dst = ins["defs"][0]["top"]
-                if dst in GPR and dst in self.k.address_regs() and pre_vals.get(dst, U) != MASK:
+                if dst in GPR and pre_vals.get(dst, U) != MASK:
                     sus = dst
             st["cfp"] = frozenset([(a, sus)])
         # sbb r,r / xor r,r leave a saved-carry mask (0 or -1; 0 is the mask of "no carry"): add $1,r / neg r / shr r turn it back into CF
         if (same or sbb_self) and ins["defs"] and ins["defs"][0]["top"] in GPR:
+            st["regs"][ins["defs"][0]["top"]] = MASK
+        # setc / setb / setnc ... r8: a saved flag (0 or 1); add $-1,r / neg r / shr r / bt turn it back into CF
+        if re.match(r"^set[a-z]+$", mn) and not mems and ins["defs"] and ins["defs"][0]["top"] in GPR:
             st["regs"][ins["defs"][0]["top"]] = MASK
         if mn == "std":
             st["df"] = True
@@ -667,11 +669,19 @@ class AbiAnalysis:
                     self.rep(a, "fall-off-end", "execution falls off the end of the code section")
                 else:
                     succ.append(k.next[a])
+            mn_ = ins["t"].split()[0] if ins.get("t") else ""
+            cf0 = None          # the successor on which a branch on CF alone leaves CF = 0: there the flag is a cleared carry, whatever set it
+            if "cond" in f and len(succ) == 2 and mn_ in ("jb", "jc", "jnae", "jae", "jnc", "jnb"):
+                cf0 = succ[1] if mn_ in ("jb", "jc", "jnae") else succ[0]
             for s in succ:
+                st_s = st
+                if s == cf0 and st.get("cfp"):
+                    st_s = self.copy(st)
+                    st_s["cfp"] = frozenset()
                 if s not in IN:
-                    IN[s] = self.copy(st)
+                    IN[s] = self.copy(st_s)
                     work.append(s)
-                elif self.join(IN[s], st, s):
+                elif self.join(IN[s], st_s, s):
                     work.append(s)
         self.stats["instructions_reached"] += len(visited)
         return ood
@@ -723,10 +733,25 @@ UNUSED_ARGS = []
 NOSTORE = []
 
 
-def run(prop="C14", tier="quick"):
+C03_FAMILY = ("add_n", "sub_n", "add_err1_n", "add_err2_n", "sub_err1_n", "sub_err2_n", "lshift", "rshift", "copyi", "copyd", "com_n",
+              "addadd_n", "addsub_n", "subadd_n", "sumdiff_n", "nsumdiff_n")
+
+
+def run_c03(prop="C03", tier="quick"):
+    """C03 view of R-ABI: every assembly implementation (all CPU directories, both tiers) of the add / subtract / shift / copy / complement
+    family the property names.  The clauses that are necessary conditions of 'the exact limb-vector function including the returned carry,
+    for every length and every permitted overlap': the carry flag consumed by adc / sbb / rcl / rcr comes from the carry chain (or a saved
+    copy of it) on every path through the unrolled loop and its tails, never from loop-control arithmetic; no limb is stored before a limb
+    of a source that may be the same vector (at the same or a higher address) has been loaded; every argument is read, every output
+    operand is written, the returned register is defined on every path to every ret."""
+    files = [(f, b) for f, b in kernel_files("thorough") if b in C03_FAMILY]
+    return run(prop, tier, files=files, floor=60)
+
+
+def run(prop="C14", tier="quick", files=None, floor=None):
     res = dict(findings=[], stats=collections.Counter(), samples=[], notes=[])
     del UNUSED_ARGS[:]
-    files = kernel_files(tier)
+    files = kernel_files(tier) if files is None else files
     fixture = os.path.join(VERIF, "selftest", "fixtures", "abi_fix.as")
     objs = assemble(files + [(fixture, "abi_fix")])
     dec = decode(objs)
@@ -807,7 +832,8 @@ def run(prop="C14", tier="quick"):
                 res["samples"].append(dict(rule="R-ABI", kernel=rel, entry=name, arity=arity, instructions=len(k.order),
                                            verdict="ok" if not found else "REFUTED"))
     exp = {"__gfix_abi_clobber": "callee-saved:rbx", "__gfix_abi_carry": "undef-flag:C", "__gfix_abi_stack": "stack-imbalance",
-           "__gfix_abi_undef": "undef-reg:r8", "__gfix_abi_good": None}
+           "__gfix_abi_undef": "undef-reg:r8", "__gfix_abi_good": None,
+           "__gfix_abi_counter_carry": "carry-from-address-arithmetic:r9", "__gfix_abi_saved_carry": None, "__gfix_abi_cf0": None}
     for fname, sig in exp.items():
         got = [f.signature for f in fx if f.function == fname]
         if sig is None and got:
@@ -815,12 +841,13 @@ def run(prop="C14", tier="quick"):
         if sig is not None and sig not in got:
             raise AnalysisBroken("R-ABI no longer fires on its positive fixture %s (expected %s, got %s)" % (fname, sig, got))
     res["stats"]["kernels"] -= 1
-    floor = 13 if tier == "quick" else 340
+    if floor is None:
+        floor = 13 if tier == "quick" else 340
     if res["stats"]["kernels"] < floor:
         raise AnalysisBroken("R-ABI analysed only %d kernels (floor %d)" % (res["stats"]["kernels"], floor))
     res["stats"] = dict(res["stats"])
     res["obligations"] = res["stats"].get("instructions_reached", 0)
-    res["notes"].append("fixtures: 4 positive fired, 1 negative silent; %d paths end at constructs listed out-of-domain"
+    res["notes"].append("fixtures: 5 positive fired, 3 negative silent; %d paths end at constructs listed out-of-domain"
                         % res["stats"].get("out_of_domain_paths", 0))
     res["exhaustive"] = True
     return res
